@@ -123,6 +123,20 @@ def step (st : St) (toks : List String) : St × List String :=
     | some r =>
       (st, s!"res n={r.1.length} more={b2s r.2}" ::
         r.1.map (fun o => s!"r {o.key.time} {showList o.key.tags} {o.key.skey} {showData o.data}"))
+  | ["cmp", t1, tg1, sk1, "/", t2, tg2, sk2] =>
+    -- queryTableRows.Less on two row markers
+    match parseMarker? t1 tg1 sk1, parseMarker? t2 tg2 sk2 with
+    | some a, some b =>
+      let ra : RowRepr := ⟨a.time, a.tags.map (·.2), a.skey⟩
+      let rb : RowRepr := ⟨b.time, b.tags.map (·.2), b.skey⟩
+      (st, [s!"cmp {b2s (less ra rb)}"])
+    | _, _ => bad st
+  | ["mlt", t, tg, sk, "/", rt, rtg, rsk, "/", oe, fe] =>
+    -- lessThan of a row marker against a storage row
+    match parseMarker? t tg sk, rt.toInt?, parseIntList? rtg, rsk.toNat?, parseBool? oe, parseBool? fe with
+    | some m, some rt, some rtg, some rsk, some oe, some fe =>
+      (st, [s!"mlt {b2s (lessThan m ⟨rt, rtg, rsk⟩ oe fe)}"])
+    | _, _, _, _, _, _ => bad st
   | ["hrun"] =>
     -- handleGetTable from the LOD list on (LODs ascending as GetLODs returns them)
     if !st.ok then (st, ["bad-op"]) else
